@@ -1979,13 +1979,17 @@ def options_snapshot(module: str, manager: BuildManager) -> dict[str, object]:
         result: dict[str, object] = {"platform": platform_opt}
         for key, val in zip(OPTIONS_AFFECTING_CACHE_NO_PLATFORM, values):
             result[key] = val
+        result["plugins_snapshot"] = manager.plugins_snapshot
         return result
     cache = manager.options_snapshot_cache
     cached = cache.get(cloned)
     if cached is None:
         platform_opt, values = cloned.select_options_affecting_cache()
         buf = WriteBuffer()
-        write_json_value(buf, cast(JsonValue, values))
+        # The versions and hashes of the active plugins are part of what an entry was computed
+        # with. The global plugins snapshot alone cannot tell: it is rewritten by every run,
+        # also by runs that do not touch (or never finish rewriting) some of the entries.
+        write_json_value(buf, cast(JsonValue, [*values, manager.plugins_snapshot]))
         cached = (platform_opt, hash_digest(buf.getvalue()))
         cache[cloned] = cached
     return {"platform": cached[0], "other_options": cached[1]}
